@@ -2,14 +2,22 @@
 package c04
 
 import (
+	"bufio"
+	"bytes"
+	"database/sql"
 	"encoding/json"
 	"errors"
 	"fmt"
 	"html/template"
+	"io"
 	"math"
+	"math/big"
 	"os"
+	"os/exec"
+	"reflect"
 	"regexp"
 	"runtime"
+	"runtime/debug"
 	"sort"
 	"strconv"
 	"strings"
@@ -17,11 +25,13 @@ import (
 	"sync/atomic"
 	"testing"
 	"time"
+	"unsafe"
 
 	"verif/internal/vk"
 
 	plush "github.com/gobuffalo/plush/v5"
 	"github.com/gobuffalo/plush/v5/helpers/hctx"
+	"github.com/gobuffalo/plush/v5/helpers/helptest"
 	"pgregory.net/rapid"
 )
 
@@ -124,6 +134,116 @@ type Emb struct {
 	Tag string
 }
 
+// ---- further shapes of ordinary Go data (widePool) ----
+
+type Namer interface{ Name() string }
+
+type namerT struct{ n string }
+
+func (n namerT) Name() string { return n.n }
+
+// EmbIface embeds an interface: Name is promoted; with a nil Namer the promoted method can only be reached
+// through a call expression (reflect.Value.Call, recovered by the engine), never by emitting the value.
+type EmbIface struct {
+	Namer
+	Tag string
+}
+
+type inner struct {
+	X    int
+	y    int
+	Deep *S
+}
+
+func (i inner) InnerM() string { return "im" }
+
+type (
+	OuterV struct {
+		inner
+		Z int
+	} // embeds an unexported struct by value
+	OuterP struct {
+		*inner
+		Z int
+	} // embeds a pointer to an unexported struct (nil or not)
+	Hid struct {
+		f   func() string
+		m   map[string]int
+		p   *S
+		i   interface{}
+		s   []int
+		Pub int
+	}
+	MyFn     func(int) int
+	FnHolder struct {
+		F0   func() string
+		F1   func(int) int
+		FNil func() string
+		FV   func(...int) int
+		M    MyFn
+		Any  interface{}
+	}
+	Arrs struct {
+		A  [2]int
+		PA *[2]int
+		AA [2][2]int
+		IA [2]interface{}
+	}
+	Node struct {
+		Next *Node
+		V    int
+		Kids []*Node
+		Up   map[string]*Node
+	}
+	KeyS struct {
+		A [2]int
+		B string
+	}
+	IterFn func() interface{}
+	Tree   struct {
+		V    int
+		Kids []Tree
+	}
+)
+
+func (f MyFn) Twice(i int) int { // nil-safe
+	if f == nil {
+		return i
+	}
+	return f(f(i))
+}
+
+func (f IterFn) Next() interface{} { // nil-safe
+	if f == nil {
+		return nil
+	}
+	return f()
+}
+
+func newNode(n int) *Node {
+	var head *Node
+	for i := 0; i < n; i++ {
+		head = &Node{Next: head, V: i}
+	}
+	return head
+}
+
+func deepSlice(n int) interface{} {
+	var v interface{} = "bottom"
+	for i := 0; i < n; i++ {
+		v = []interface{}{v}
+	}
+	return v
+}
+
+func deepMap(n int) interface{} {
+	var v interface{} = "bottom"
+	for i := 0; i < n; i++ {
+		v = map[string]interface{}{"a": v}
+	}
+	return v
+}
+
 func newS() S {
 	return S{F: "eff", N: 7, Fn: func(a int) int { return a + 1 }, L: []int{4, 5}, M: map[string]int{"k": 1}, Any: "any", hidden: 1}
 }
@@ -139,6 +259,9 @@ type pv struct {
 	Kind    string // int, float, string, bool, nil, nilptr, slice, array, map, struct, ptr, func, iter, html, time, ufn, ...
 	Key     string // maps: kind of the key
 	Odd     bool   // nil / typed nil / negative / extreme / unknown: non-trivial whatever the operation
+	Wide    bool   // one of the further shapes of widePool: paired with a core subset only where a full square is too large
+	Heavy   bool   // costly to build (depth 2000): not bound in the native fuzz target
+	Fatal   bool   // contains itself: a naive traversal ends in a fatal stack overflow, so cases that mention it run in a child process
 }
 
 func (p *pv) spell() string {
@@ -335,6 +458,372 @@ var pool = []*pv{
 	{Name: "lit_hash", Spell: `{"a": 1, "abc": nil}`, Kind: "map", Key: "string"},
 }
 
+// widePool: further shapes of ordinary Go data (all Wide and Odd). Everything callable in it is total: no
+// function, method or iterator below can panic for any receiver or argument of its types.
+func w(name, kind string, mk func() interface{}) *pv {
+	return &pv{Name: name, Kind: kind, Mk: mk, Odd: true, Wide: true}
+}
+
+func wm(name, key string, mk func() interface{}) *pv {
+	return &pv{Name: name, Kind: "map", Key: key, Mk: mk, Odd: true, Wide: true}
+}
+
+var widePool = []*pv{
+	// arrays and slices of interfaces, of arrays, of slices; pointers to them
+	w("arrany", "array", func() interface{} { return [2]interface{}{1, nil} }),
+	w("arrerrs", "array", func() interface{} { return [2]error{errors.New("e0"), nil} }),
+	w("parrany", "ptr", func() interface{} { return &[2]interface{}{"x", nil} }),
+	w("pparr", "ptr", func() interface{} { a := &[3]int{1, 2, 3}; return &a }),
+	w("arrarr", "array", func() interface{} { return [2][2]int{{1, 2}, {3, 4}} }),
+	w("slarr", "slice", func() interface{} { return [][2]int{{1, 2}} }),
+	w("arrsl", "array", func() interface{} { return [2][]int{{1}, nil} }),
+	w("ints3", "slice", func() interface{} { return [][][]int{{{1, 2}, nil}, nil} }),
+	w("bytes2", "slice", func() interface{} { return [][]byte{[]byte("a"), nil} }),
+	w("anysnil", "slice", func() interface{} { return []interface{}{nil, nil} }),
+	w("funcs", "slice", func() interface{} {
+		return []func() string{func() string { return "fs0" }, nil}
+	}),
+	w("ptrs", "slice", func() interface{} { i := 1; return []*int{&i, nil} }),
+	w("slmaps", "slice", func() interface{} { return []map[int]string{{1: "x"}, nil} }),
+	// maps: interface element types, nested nils, array / struct-with-array / interface keys holding NaN or pointers
+	wm("nilmsa", "string", func() interface{} { return map[string]interface{}(nil) }),
+	wm("msnested", "string", func() interface{} {
+		return map[string]interface{}{"n": nil, "a": map[string]interface{}{"n": nil, "a": []interface{}{nil}}, "abc": []interface{}{nil, map[string]interface{}(nil)}, "p": (*S)(nil)}
+	}),
+	wm("mstringerelem", "string", func() interface{} {
+		return map[string]fmt.Stringer{"a": Str{"x"}, "n": nil, "abc": (*Str)(nil)}
+	}),
+	wm("mfuncval", "string", func() interface{} {
+		return map[string]func() string{"a": func() string { return "mfa" }, "abc": nil}
+	}),
+	wm("mmap", "string", func() interface{} { return map[string]map[string]int{"a": {"a": 1}, "abc": nil} }),
+	wm("marrkey", "array", func() interface{} { return map[[2]int]string{{1, 2}: "x"} }),
+	wm("marranykey", "array", func() interface{} {
+		return map[[1]interface{}]string{{1}: "one", {math.NaN()}: "nan", {(*S)(nil)}: "nilp"}
+	}),
+	wm("mkeyS", "struct", func() interface{} { return map[KeyS]int{{A: [2]int{1, 2}, B: "b"}: 1} }),
+	wm("mifacekeys", "any", func() interface{} {
+		return map[interface{}]int{math.NaN(): 1, (*S)(nil): 2, [1]int{1}: 3, Unh{I: math.NaN()}: 4, nil: 5, &S{}: 6, 1.5: 7, int8(1): 8}
+	}),
+	wm("mstringerkey", "iface", func() interface{} { return map[fmt.Stringer]int{Str{"k"}: 1, (*Str)(nil): 2} }),
+	wm("merrkey", "iface", func() interface{} { return map[error]int{} }),
+	wm("munhnan", "struct", func() interface{} { return map[Unh]string{{I: math.NaN()}: "n", {I: nil}: "nil"} }),
+	wm("mchankey", "chan", func() interface{} { return map[chan int]int{nil: 1, make(chan int): 2} }),
+	wm("mint8key", "int8", func() interface{} { return map[int8]string{1: "x"} }),
+	wm("muintkey", "uint", func() interface{} { return map[uint]string{1: "x"} }),
+	wm("mmyintkey", "int", func() interface{} { return map[MyInt]string{1: "x"} }),
+	wm("mmystrkey", "string", func() interface{} { return map[MyStr]int{"a": 1} }),
+	wm("mint64key", "int64", func() interface{} { return map[int64]string{2: "x"} }),
+	wm("mcplxkey", "complex", func() interface{} { return map[complex128]int{complex(1, 2): 1} }),
+	// values meant as keys
+	w("arrkey", "array", func() interface{} { return [2]int{1, 2} }),
+	w("arranynan", "array", func() interface{} { return [1]interface{}{math.NaN()} }),
+	w("arrunh", "array", func() interface{} { return [1]interface{}{[]int{1}} }), // comparable type, unhashable value
+	w("keyS", "struct", func() interface{} { return KeyS{A: [2]int{1, 2}, B: "b"} }),
+	w("unhnan", "struct", func() interface{} { return Unh{I: math.NaN()} }),
+	w("unhmap", "struct", func() interface{} { return Unh{I: map[string]int{}} }),
+	w("unhfunc", "struct", func() interface{} { return Unh{I: func() {}} }),
+	w("int8v", "int8", func() interface{} { return int8(1) }),
+	// structs: embedded interface (nil or not), embedded unexported struct (value / pointer / nil pointer),
+	// unexported fields of every kind, func fields, array fields
+	w("embiface", "struct", func() interface{} { return EmbIface{Namer: namerT{"n"}, Tag: "t"} }),
+	w("embifacenil", "struct", func() interface{} { return EmbIface{Tag: "t"} }),
+	w("pembifacenil", "ptr", func() interface{} { return &EmbIface{Tag: "t"} }),
+	w("outerv", "struct", func() interface{} { return OuterV{inner{1, 2, &S{F: "deep"}}, 3} }),
+	w("outerp", "struct", func() interface{} { return OuterP{&inner{1, 2, nil}, 3} }),
+	w("outerpnil", "struct", func() interface{} { return OuterP{Z: 3} }),
+	w("pouterpnil", "ptr", func() interface{} { return &OuterP{Z: 3} }),
+	w("hid", "struct", func() interface{} {
+		return Hid{f: func() string { return "f" }, m: map[string]int{"a": 1}, p: &S{}, i: 1, s: []int{1}, Pub: 1}
+	}),
+	w("phid", "ptr", func() interface{} { return &Hid{} }),
+	w("fnholder", "struct", func() interface{} {
+		return FnHolder{F0: func() string { return "F0" }, F1: func(i int) int { return i }, FV: func(x ...int) int { return len(x) }, M: func(i int) int { return i + 1 }, Any: func() string { return "any" }}
+	}),
+	w("pfnholder", "ptr", func() interface{} { return &FnHolder{} }),
+	w("arrs", "struct", func() interface{} { return Arrs{A: [2]int{1, 2}, IA: [2]interface{}{1, nil}} }),
+	w("parrs", "ptr", func() interface{} { return &Arrs{A: [2]int{1, 2}, PA: &[2]int{3, 4}, IA: [2]interface{}{[]int{1}, nil}} }),
+	w("anonnested", "struct", func() interface{} {
+		return struct {
+			In struct{ F string }
+			P  *struct{ F string }
+		}{}
+	}),
+	w("emptystruct", "struct", func() interface{} { return struct{}{} }),
+	// linked structures: a chain, and pointer cycles (fmt prints a pointer below the top level as an address,
+	// encoding/json reports a cycle: neither recurses for ever)
+	w("chain3", "ptr", func() interface{} { return newNode(3) }),
+	w("pcycle", "ptr", func() interface{} { n := &Node{V: 1}; n.Next = n; return n }),
+	w("kidcycle", "ptr", func() interface{} { n := &Node{V: 1}; n.Kids = []*Node{n}; return n }),
+	w("upcycle", "ptr", func() interface{} { n := &Node{V: 1}; n.Up = map[string]*Node{"a": n}; return n }),
+	w("cyclekids", "slice", func() interface{} { n := &Node{V: 1}; n.Kids = []*Node{n}; return n.Kids }),
+	// pointers to pointers, to nil pointers, to interfaces, to scalars, to nil maps
+	w("pppS", "ptr", func() interface{} { s := newS(); p := &s; pp := &p; return &pp }),
+	w("pnilp", "ptr", func() interface{} { var p *S; return &p }),
+	w("pifc", "ptr", func() interface{} { var i interface{} = 1; return &i }),
+	w("pifcnil", "ptr", func() interface{} { var i interface{}; return &i }),
+	w("pifcS", "ptr", func() interface{} { var i interface{} = newS(); return &i }),
+	w("pstr", "ptr", func() interface{} { s := "ps"; return &s }),
+	w("pbool", "ptr", func() interface{} { b := false; return &b }),
+	w("pnilmap", "ptr", func() interface{} { var m map[string]int; return &m }),
+	w("pnilslice", "ptr", func() interface{} { var s []int; return &s }),
+	w("pmsa", "ptr", func() interface{} { return &map[string]interface{}{"a": 1} }),
+	w("panys", "ptr", func() interface{} { return &[]interface{}{1, nil} }),
+	w("piter", "ptr", func() interface{} { it := &iterT{items: []interface{}{1}}; return &it }),
+	w("perr", "ptr", func() interface{} { e := errors.New("pe"); return &e }),
+	// library types that turn up as data
+	w("rvint", "struct", func() interface{} { return reflect.ValueOf(42) }),
+	w("rvslice", "struct", func() interface{} { return reflect.ValueOf([]int{1, 2}) }),
+	w("rvnilptr", "struct", func() interface{} { return reflect.ValueOf((*S)(nil)) }),
+	w("rtype", "ptr", func() interface{} { return reflect.TypeOf(1) }),
+	w("dur", "int64", func() interface{} { return 1500 * time.Millisecond }),
+	w("month", "int", func() interface{} { return time.March }),
+	w("loc", "ptr", func() interface{} { return time.UTC }),
+	w("timzero", "time", func() interface{} { return time.Time{} }),
+	w("jsonnum", "string", func() interface{} { return json.Number("12") }),
+	w("jsonnumbad", "string", func() interface{} { return json.Number("x1") }),
+	w("rawmsg", "slice", func() interface{} { return json.RawMessage(`{"a":1}`) }),
+	w("rawbad", "slice", func() interface{} { return json.RawMessage(`{`) }),
+	w("bigint", "ptr", func() interface{} { return new(big.Int).Lsh(big.NewInt(1), 80) }),
+	w("bigintnil", "nilptr", func() interface{} { return (*big.Int)(nil) }),
+	w("bigintval", "struct", func() interface{} { return *big.NewInt(5) }),
+	w("bigfloat", "ptr", func() interface{} { return big.NewFloat(1.5) }),
+	w("bigrat", "ptr", func() interface{} { return big.NewRat(1, 3) }),
+	w("nullstr", "struct", func() interface{} { return sql.NullString{String: "x", Valid: true} }),
+	w("nullstrnot", "struct", func() interface{} { return sql.NullString{} }),
+	w("nullint", "struct", func() interface{} { return sql.NullInt64{Int64: 1, Valid: true} }),
+	w("htmlattr", "string", func() interface{} { return template.HTMLAttr(`a="b"`) }),
+	w("js", "string", func() interface{} { return template.JS(`alert(1)`) }),
+	w("regexpv", "ptr", func() interface{} { return regexp.MustCompile("a+") }),
+	w("sbuilder", "ptr", func() interface{} { return &strings.Builder{} }),
+	w("plushctx", "ptr", func() interface{} { return plush.NewContext() }),
+	w("hctxmap", "map", func() interface{} { return hctx.Map{"a": 1} }),
+	// strings: invalid UTF-8, NUL, format verbs, template text, hostile regular expressions, long
+	w("strbadutf", "string", func() interface{} { return "a\xff\xfeb\xc0" }),
+	w("strnul", "string", func() interface{} { return "a\x00b" }),
+	w("strfmt", "string", func() interface{} { return "%s%d%!%n%*d%[9]v%" }),
+	w("strtmpl", "string", func() interface{} { return `<%= ints[5] %><%= unk.F %><% break %>` }),
+	w("strtmplok", "string", func() interface{} { return `<%= 1 + 1 %><% let str = 9 %>` }),
+	w("strrebomb", "string", func() interface{} { return "(a{1000}){1000}" }),
+	w("strrenest", "string", func() interface{} { return strings.Repeat("(", 1500) + strings.Repeat(")", 1500) }),
+	w("strreslow", "string", func() interface{} { return "(a*)*(b|a?)+$" }),
+	w("strrebs", "string", func() interface{} { return `\` }),
+	w("strrecls", "string", func() interface{} { return `[[:foo:]]\p{Nope}(?P<n>` }),
+	w("strbig", "string", func() interface{} { return strings.Repeat("aé", 1000) }),
+	w("strspace", "string", func() interface{} { return " \t\n" }),
+	w("strhtml", "string", func() interface{} { return `<script>"'&</script>` }),
+	w("strdots", "string", func() interface{} { return "a.b[0]" }),
+	w("strurl", "string", func() interface{} { return "http://x/%zz?a=b" }),
+	w("bytesbad", "slice", func() interface{} { return []byte{0xff, 0, 0xfe} }),
+	w("runes", "slice", func() interface{} { return []rune("héé") }),
+	// numbers: extremes of every width, infinities, negative zero, uintptr, complex
+	w("fmax", "float", func() interface{} { return math.MaxFloat64 }),
+	w("fsmall", "float", func() interface{} { return math.SmallestNonzeroFloat64 }),
+	w("finf", "float", func() interface{} { return math.Inf(1) }),
+	w("fneginf", "float", func() interface{} { return math.Inf(-1) }),
+	w("fnegzero", "float", func() interface{} { return math.Copysign(0, -1) }),
+	w("f32nan", "float32", func() interface{} { return float32(math.NaN()) }),
+	w("int8min", "int8", func() interface{} { return int8(math.MinInt8) }),
+	w("int64min", "int64", func() interface{} { return int64(math.MinInt64) }),
+	w("int64max", "int64", func() interface{} { return int64(math.MaxInt64) }),
+	w("int64zero", "int64", func() interface{} { return int64(0) }),
+	w("int64one", "int64", func() interface{} { return int64(-1) }),
+	w("uint0", "uint", func() interface{} { return uint(0) }),
+	w("uintptrv", "uint", func() interface{} { return uintptr(7) }),
+	w("cplx64", "complex", func() interface{} { return complex64(complex(1, -1)) }),
+	w("cplxnan", "complex", func() interface{} { return complex(math.NaN(), math.Inf(1)) }),
+	w("mybool", "bool", func() interface{} { type B bool; return B(true) }),
+	w("myfloat", "float", func() interface{} { type F float64; return F(1.5) }),
+	// channels, unsafe pointers
+	w("nilchan", "chan", func() interface{} { return (chan int)(nil) }),
+	w("closedchan", "chan", func() interface{} { c := make(chan int, 1); c <- 1; close(c); return c }),
+	w("rochan", "chan", func() interface{} { c := make(chan string, 1); return (<-chan string)(c) }),
+	w("upnil", "ptr", func() interface{} { return unsafe.Pointer(nil) }),
+	w("up", "ptr", func() interface{} { i := 1; return unsafe.Pointer(&i) }),
+	// deep nesting (depth 2000): output, string conversion, toJSON, inspect, debug, len, for
+	{Name: "deepslice", Kind: "slice", Odd: true, Wide: true, Heavy: true, Mk: func() interface{} { return deepSlice(2000) }},
+	{Name: "deepmap", Kind: "map", Key: "string", Odd: true, Wide: true, Heavy: true, Mk: func() interface{} { return deepMap(2000) }},
+	{Name: "deepchain", Kind: "ptr", Odd: true, Wide: true, Heavy: true, Mk: func() interface{} { return newNode(2000) }},
+	// values that contain themselves (Fatal: cases that mention them are rendered in a child process)
+	{Name: "selfslice", Kind: "slice", Odd: true, Wide: true, Fatal: true, Mk: func() interface{} { s := []interface{}{1, nil}; s[1] = s; return s }},
+	{Name: "selfmap", Kind: "map", Key: "string", Odd: true, Wide: true, Fatal: true, Mk: func() interface{} { m := map[string]interface{}{"a": 1}; m["abc"] = m; return m }},
+	{Name: "selfkids", Kind: "struct", Odd: true, Wide: true, Fatal: true, Mk: func() interface{} {
+		t := Tree{V: 1, Kids: []Tree{{V: 2}}}
+		t.Kids[0].Kids = t.Kids // no pointer, no interface: the element's slice is the slice it is an element of
+		return t
+	}},
+	{Name: "selfid", Kind: "struct", Odd: true, Wide: true, Fatal: true, Mk: func() interface{} {
+		s := []interface{}{nil}
+		s[0] = s
+		return struct{ ID interface{} }{ID: s}
+	}},
+	{Name: "tselfarr", Kind: "slice", Odd: true, Wide: true, Fatal: true, Prelude: `<% let tselfarr = [1, nil] %><% tselfarr[1] = tselfarr %>`},
+	{Name: "tselfhash", Kind: "map", Key: "string", Odd: true, Wide: true, Fatal: true, Prelude: `<% let tselfhash = {"a": 1} %><% tselfhash["abc"] = tselfhash %>`},
+	// functions: 0, 1, 2 (second not an error), 3 results; nil error; functions as results
+	w("f3", "func", func() interface{} { return func() (int, string, error) { return 1, "s", nil } }),
+	w("f3err", "func", func() interface{} { return func() (int, string, error) { return 1, "s", errors.New("f3err says no") } }),
+	w("f3int", "func", func() interface{} { return func() (int, int, int) { return 1, 2, 3 } }),
+	w("f2bool", "func", func() interface{} { return func() (string, bool) { return "s", false } }),
+	w("f2errfirst", "func", func() interface{} { return func() (error, string) { return errors.New("first"), "s" } }),
+	w("fnilerr", "func", func() interface{} { return func() error { return nil } }),
+	w("fanyerr", "func", func() interface{} { return func() (interface{}, error) { return nil, nil } }),
+	w("fnil2", "func", func() interface{} { return func() (interface{}, string) { return nil, "x" } }),
+	w("ffnret", "func", func() interface{} {
+		return func() func() string { return func() string { return "inner" } }
+	}),
+	w("ffnret1", "func", func() interface{} {
+		return func(a int) func(int) int { return func(b int) int { return a + b } }
+	}),
+	w("ffnretnil", "func", func() interface{} { return func() func() string { return nil } }),
+	w("frvret", "func", func() interface{} { return func() reflect.Value { return reflect.ValueOf("rv") } }),
+	w("fiterret", "func", func() interface{} {
+		return func() plush.Iterator { return &iterT{items: []interface{}{1, 2}} }
+	}),
+	w("fiterretnil", "func", func() interface{} { return func() plush.Iterator { return nil } }),
+	// functions taking pointers, interfaces, functions, channels, named types, arrays
+	w("fpint", "func", func() interface{} {
+		return func(p *int) int {
+			if p == nil {
+				return 0
+			}
+			return *p
+		}
+	}),
+	w("ferrarg", "func", func() interface{} {
+		return func(e error) string {
+			if e == nil {
+				return "nil error"
+			}
+			return "error"
+		}
+	}),
+	w("ffuncarg", "func", func() interface{} {
+		return func(f func(int) int) int {
+			if f == nil {
+				return 0
+			}
+			return f(1)
+		}
+	}),
+	w("fchanarg", "func", func() interface{} { return func(c chan int) int { return len(c) } }),
+	w("fmyint", "func", func() interface{} { return func(i MyInt) MyInt { return i + 1 } }),
+	w("fmystr", "func", func() interface{} { return func(s MyStr) string { return string(s) } }),
+	w("fhctxmap", "func", func() interface{} { return func(m hctx.Map) int { return len(m) } }),
+	w("fmymap", "func", func() interface{} { return func(m MyMap) int { return len(m) } }),
+	w("farr", "func", func() interface{} { return func(a [3]int) int { return a[0] } }),
+	w("fparr", "func", func() interface{} {
+		return func(a *[3]int) int {
+			if a == nil {
+				return 0
+			}
+			return a[0]
+		}
+	}),
+	w("fppS", "func", func() interface{} {
+		return func(p **S) string {
+			if p == nil {
+				return "nil"
+			}
+			return (*p).PHello()
+		}
+	}),
+	w("fint8", "func", func() interface{} { return func(i int8) int8 { return i } }),
+	w("fint64", "func", func() interface{} { return func(i int64) int64 { return i } }),
+	w("ffloat", "func", func() interface{} { return func(f float64) float64 { return f } }),
+	w("fbool", "func", func() interface{} { return func(b bool) bool { return !b } }),
+	w("fanys", "func", func() interface{} { return func(xs []interface{}) int { return len(xs) } }),
+	w("fhtml", "func", func() interface{} { return func(h template.HTML) template.HTML { return h } }),
+	w("ftime", "func", func() interface{} { return func(t time.Time) string { return "t" } }),
+	w("fctxarg", "func", func() interface{} { return func(c hctx.Context) bool { return c == nil } }),
+	w("f2zero", "func", func() interface{} { return func(a int, b S, c *S) string { return b.F + c.PHello() } }),
+	w("f4", "func", func() interface{} { return func(a, b, c, d int) int { return a + b + c + d } }),
+	// variadic of each
+	w("fvany", "func", func() interface{} { return func(xs ...interface{}) int { return len(xs) } }),
+	w("fvstr", "func", func() interface{} { return func(xs ...string) string { return strings.Join(xs, ",") } }),
+	w("fvptr", "func", func() interface{} { return func(xs ...*S) int { return len(xs) } }),
+	w("fverr", "func", func() interface{} { return func(xs ...error) int { return len(xs) } }),
+	w("fvstringer", "func", func() interface{} { return func(xs ...fmt.Stringer) int { return len(xs) } }),
+	w("fvfunc", "func", func() interface{} { return func(xs ...func() string) int { return len(xs) } }),
+	w("fvmyint", "func", func() interface{} { return func(xs ...MyInt) int { return len(xs) } }),
+	w("fvslices", "func", func() interface{} { return func(xs ...[]int) int { return len(xs) } }),
+	w("fvmap", "func", func() interface{} { return func(a int, xs ...map[string]interface{}) int { return a + len(xs) } }),
+	w("fvhc", "func", func() interface{} { return func(xs ...plush.HelperContext) int { return len(xs) } }),
+	w("fvhelp", "func", func() interface{} {
+		return func(s string, h plush.HelperContext, xs ...int) string { return fmt.Sprint(s, h.HasBlock(), len(xs)) }
+	}),
+	// helper-context parameters in every position; helpers that use the context
+	w("fhcfirst", "func", func() interface{} {
+		return func(h plush.HelperContext, s string) string { return fmt.Sprint(h.HasBlock(), s) }
+	}),
+	w("fhconly", "func", func() interface{} { return func(h hctx.HelperContext) bool { return h.HasBlock() } }),
+	w("fphc", "func", func() interface{} { return func(h *plush.HelperContext) bool { return h == nil } }),
+	w("fmapmap", "func", func() interface{} {
+		return func(a map[string]interface{}, b map[string]interface{}) int { return len(a) + len(b) }
+	}),
+	w("fopts3", "func", func() interface{} {
+		return func(a interface{}, o hctx.Map, h hctx.HelperContext) string { return fmt.Sprint(len(o), h.HasBlock()) }
+	}),
+	w("fhcmap", "func", func() interface{} {
+		return func(h plush.HelperContext, o map[string]interface{}) string { return fmt.Sprint(len(o), h.HasBlock()) }
+	}),
+	w("frender", "func", func() interface{} {
+		return func(s string, h plush.HelperContext) (string, error) { return h.Render(s) }
+	}),
+	w("fblock2", "func", func() interface{} {
+		return func(h plush.HelperContext) (string, error) { // runs its block twice, the second time in a child context
+			if !h.HasBlock() {
+				return "noblock", nil
+			}
+			a, err := h.Block()
+			if err != nil {
+				return "", err
+			}
+			b, err := h.BlockWith(h.New())
+			return a + b, err
+		}
+	}),
+	w("fblockwithnil", "func", func() interface{} {
+		return func(h plush.HelperContext) (string, error) { return h.BlockWith(nil) }
+	}),
+	w("fctxset", "func", func() interface{} {
+		return func(k string, v interface{}, h plush.HelperContext) interface{} { h.Set(k, v); return h.Value(k) }
+	}),
+	w("fctxhas", "func", func() interface{} {
+		return func(k string, h plush.HelperContext) bool { return h.Has(k) }
+	}),
+	// named function types, method values, method expressions
+	w("myfn", "func", func() interface{} { return MyFn(func(i int) int { return i + 1 }) }),
+	w("myfnnil", "func", func() interface{} { return MyFn(nil) }),
+	w("mvhello", "func", func() interface{} { return newS().Hello }),
+	w("mvadd", "func", func() interface{} { s := newS(); return (&s).Add }),
+	w("mvphello", "func", func() interface{} { return (*S)(nil).PHello }),
+	w("mexpr", "func", func() interface{} { return S.Add }),
+	w("mexprp", "func", func() interface{} { return (*S).PHello }),
+	w("pfnil", "ptr", func() interface{} { var f func() string; return &f }),
+	w("ppf0", "ptr", func() interface{} { f := func() string { return "ppf0" }; p := &f; return &p }),
+	// iterators of other shapes
+	w("iterfn", "iter", func() interface{} {
+		n := 0
+		return IterFn(func() interface{} {
+			n++
+			if n > 3 {
+				return nil
+			}
+			return n
+		})
+	}),
+	w("iterfnnil", "iter", func() interface{} { return IterFn(nil) }),
+	w("iternested", "iter", func() interface{} {
+		return &iterT{items: []interface{}{[]int{1}, &iterT{items: []interface{}{"in"}}, map[string]int{"a": 1}, (*iterT)(nil), [0]int{}}}
+	}),
+	w("itertypednil", "iter", func() interface{} {
+		return &iterT{items: []interface{}{(*S)(nil), (*int)(nil), []int(nil), map[string]int(nil), (func())(nil)}}
+	}),
+	w("iterfuncs", "iter", func() interface{} {
+		return &iterT{items: []interface{}{func() string { return "it" }, errors.New("e"), reflect.ValueOf(1)}}
+	}),
+}
+
 var byName = map[string]*pv{}
 
 func P(name string) *pv {
@@ -360,7 +849,34 @@ func eight() []*pv {
 	return []*pv{P("intneg"), P("str"), P("nil"), P("nilpS"), P("ints"), P("msa"), P("f0"), P("float64")}
 }
 
+// core: the partners a Wide value is paired with where the full pool x pool square is too large
+var coreNames = []string{"int", "int0", "intneg", "float64", "nan", "str", "strempty", "btrue", "nil", "unk", "nilpS", "nilslice", "nilmap",
+	"ints", "anys", "arr", "msa", "msi", "maa", "sval", "pS", "f0", "f1", "fany", "iter", "unhash", "errs", "html", "tim", "ufn", "lit_arr", "lit_hash"}
+
+var core = map[*pv]bool{}
+
+var tiny = map[*pv]bool{} // six(): the partners of a value that contains itself in the quick tier
+
+// pairOK tells whether the pair (a, b) is enumerated. Pairs of two values of the original pool always are.
+// A Wide value meets: every value (thorough) or the core values (quick); another Wide value only in the cheap
+// matrices (square=true) of the thorough tier.
+func pairOK(r *vk.Run, a, b *pv, square bool) bool {
+	if r.Quick() && (a.Fatal && !tiny[b] || b.Fatal && !tiny[a]) {
+		return false // every such case costs a round trip to a child process, and a new process when it dies
+	}
+	switch {
+	case !a.Wide && !b.Wide:
+		return true
+	case a.Wide && b.Wide:
+		return square && r.Thorough()
+	case a.Wide:
+		return r.Thorough() || core[b]
+	}
+	return r.Thorough() || core[a]
+}
+
 func init() {
+	pool = append(pool, widePool...)
 	for _, p := range pool {
 		if byName[p.Name] != nil {
 			panic("duplicate pool name " + p.Name)
@@ -372,6 +888,12 @@ func init() {
 			panic("pool name collides with helper " + k)
 		}
 	}
+	for _, n := range coreNames {
+		core[P(n)] = true
+	}
+	for _, p := range six() {
+		tiny[p] = true
+	}
 }
 
 // ---- cases ----------------------------------------------------------------------------------------------
@@ -382,6 +904,8 @@ type Case struct {
 	Matrix string   `json:"matrix"`
 	Tmpl   vk.Text  `json:"template"`
 	Vars   []string `json:"vars"`
+	Iso    bool     `json:"isolate,omitempty"` // render in a child process (the template itself builds a value that contains itself)
+	Ctx    string   `json:"context,omitempty"` // "": plush.NewContextWith(data); "helptest": plush's other hctx.Context implementation
 }
 
 type cell struct {
@@ -598,14 +1122,236 @@ func render(c Case) (res vk.Res, parseErr error, harness error) {
 	if pres.Err != nil {
 		return vk.Res{}, pres.Err, nil
 	}
-	res = vk.Safe(func() (string, error) { return tpl.Exec(plush.NewContextWith(data)) })
+	res = vk.Safe(func() (string, error) {
+		if c.Ctx == "helptest" { // plush's own second implementation of hctx.Context (helpers/helptest)
+			ctx := helptest.NewContext()
+			for k, v := range plush.Helpers.All() {
+				ctx.Set(k, v)
+			}
+			for k, v := range data {
+				ctx.Set(k, v)
+			}
+			return tpl.Exec(ctx)
+		}
+		return tpl.Exec(plush.NewContextWith(data))
+	})
 	return res, nil, nil
+}
+
+// ---- isolation: cases that can end in a FATAL error ---------------------------------------------------------
+//
+// A value that contains itself (a []interface{} stored into one of its own elements, a map stored under one of
+// its own keys) makes every naive traversal recurse until the stack is exhausted. That is a fatal error: no
+// recover() sees it and the whole test process dies. A case that mentions such a value (pv.Fatal) is therefore
+// rendered in a child process (this test binary running TestIsoChild, a line-oriented server: one JSON case in,
+// one JSON result out). When the child dies on a case, the case is the witness, the runtime's report is its
+// stack, and the class is grouped like a panic's (innermost plush frame of the part of the stack that is printed).
+
+type isoRes struct {
+	Out   string `json:"out"`
+	Err   string `json:"err,omitempty"`
+	Perr  string `json:"perr,omitempty"`
+	Herr  string `json:"herr,omitempty"`
+	Panic string `json:"panic,omitempty"`
+	Stack string `json:"stack,omitempty"`
+}
+
+const isoEnv = "VERIF_C04_ISO_CHILD"
+
+// TestIsoChild is the child side; it does nothing unless started by isoPool.
+func TestIsoChild(t *testing.T) {
+	if os.Getenv(isoEnv) == "" {
+		t.Skip("only run as a child of TestProp / TestReplay")
+	}
+	debug.SetMaxStack(8 << 20) // depth 2000 needs ~2 MB; an unbounded recursion ends within ~30 ms
+	in := bufio.NewReaderSize(os.Stdin, 1<<20)
+	out := bufio.NewWriter(os.Stdout)
+	for {
+		line, err := in.ReadBytes('\n')
+		if len(line) > 1 {
+			var c Case
+			var ir isoRes
+			if e := json.Unmarshal(line, &c); e != nil {
+				ir.Herr = e.Error()
+			} else {
+				res, perr, herr := render(c)
+				ir.Out = res.Out
+				if res.Err != nil {
+					ir.Err = res.Err.Error()
+					if ir.Err == "" {
+						ir.Err = "(empty error text)"
+					}
+				}
+				if perr != nil {
+					ir.Perr = perr.Error() + " "
+				}
+				if herr != nil {
+					ir.Herr = herr.Error() + " "
+				}
+				if res.Panicked() {
+					ir.Panic = fmt.Sprint(res.Panic) + " "
+					ir.Stack = res.Stack
+				}
+			}
+			b, _ := json.Marshal(ir)
+			out.WriteString("ISO ")
+			out.Write(b)
+			out.WriteByte('\n')
+			out.Flush()
+		}
+		if err != nil {
+			break
+		}
+	}
+	os.Exit(0)
+}
+
+type isoChild struct {
+	cmd    *exec.Cmd
+	in     io.WriteCloser
+	out    *bufio.Reader
+	stderr *bytes.Buffer
+}
+
+var (
+	isoOnce  sync.Once
+	isoFree  chan *isoChild
+	isoCount int64 // children started
+)
+
+func isoWorkers() int {
+	if n, _ := strconv.Atoi(os.Getenv("VERIF_SHARDS")); n > 1 {
+		return 2
+	}
+	return runtime.GOMAXPROCS(0)
+}
+
+func isoStart() (*isoChild, error) {
+	cmd := exec.Command(os.Args[0], "-test.run", "^TestIsoChild$", "-test.timeout", "0")
+	cmd.Env = append(os.Environ(), isoEnv+"=1", "VERIF_REPLAY_CHILD=1")
+	in, err := cmd.StdinPipe()
+	if err != nil {
+		return nil, err
+	}
+	out, err := cmd.StdoutPipe()
+	if err != nil {
+		return nil, err
+	}
+	ch := &isoChild{cmd: cmd, in: in, out: bufio.NewReaderSize(out, 1<<20), stderr: &bytes.Buffer{}}
+	cmd.Stderr = ch.stderr
+	if err := cmd.Start(); err != nil {
+		return nil, err
+	}
+	atomic.AddInt64(&isoCount, 1)
+	return ch, nil
+}
+
+func (ch *isoChild) stop() {
+	ch.in.Close()
+	ch.cmd.Process.Kill()
+	ch.cmd.Wait()
+}
+
+// renderIsolated is render in a child process. A child that dies gives a Res whose Panic is the runtime's
+// "fatal error: ..." line and whose Stack is the runtime's report.
+func renderIsolated(c Case) (res vk.Res, parseErr error, harness error) {
+	isoOnce.Do(func() {
+		n := isoWorkers()
+		isoFree = make(chan *isoChild, n)
+		for i := 0; i < n; i++ {
+			isoFree <- nil // started on first use
+		}
+	})
+	ch := <-isoFree
+	defer func() { isoFree <- ch }()
+	if ch == nil {
+		var err error
+		if ch, err = isoStart(); err != nil {
+			ch = nil
+			return vk.Res{}, nil, fmt.Errorf("cannot start the isolation child: %v", err)
+		}
+	}
+	line, _ := json.Marshal(c)
+	ch.in.Write(append(line, '\n'))
+	for {
+		l, err := ch.out.ReadString('\n')
+		if strings.HasPrefix(l, "ISO ") {
+			var ir isoRes
+			if e := json.Unmarshal([]byte(l[4:]), &ir); e != nil {
+				return vk.Res{}, nil, fmt.Errorf("isolation child answered %q: %v", l, e)
+			}
+			res.Out = ir.Out
+			if ir.Err != "" {
+				res.Err = errors.New(ir.Err)
+			}
+			if ir.Panic != "" {
+				res.Panic, res.Stack, res.Out, res.Err = strings.TrimSuffix(ir.Panic, " "), ir.Stack, "", nil
+			}
+			if ir.Perr != "" {
+				parseErr = errors.New(ir.Perr)
+			}
+			if ir.Herr != "" {
+				harness = errors.New(ir.Herr)
+			}
+			return res, parseErr, harness
+		}
+		if err != nil { // the child died on this case
+			ch.cmd.Wait()
+			report := ch.stderr.String()
+			ch = nil
+			msg := "fatal error (child process died)"
+			for _, sl := range strings.Split(report, "\n") {
+				if strings.HasPrefix(sl, "fatal error: ") || strings.HasPrefix(sl, "panic: ") {
+					msg = sl
+					break
+				}
+			}
+			if len(report) > 1<<16 {
+				report = report[:1<<16]
+			}
+			return vk.Res{Panic: msg, Stack: report}, nil, nil
+		}
+	}
+}
+
+func isoShutdown() {
+	if isoFree == nil {
+		return
+	}
+	for {
+		select {
+		case ch := <-isoFree:
+			if ch != nil {
+				ch.stop()
+			}
+		default:
+			return
+		}
+	}
+}
+
+func needsIsolation(c Case) bool {
+	if os.Getenv(isoEnv) != "" {
+		return false
+	}
+	for _, v := range c.Vars {
+		if p := byName[v]; p != nil && p.Fatal {
+			return true
+		}
+	}
+	return c.Iso
 }
 
 // check is the oracle: the result is (out, nil) or ("", err); never a panic.
 func check(r *vk.Run, c Case, nt bool, sub string) *vk.Fail {
 	defer r.Watch("case", c)()
-	res, perr, herr := render(c)
+	var res vk.Res
+	var perr, herr error
+	if needsIsolation(c) {
+		res, perr, herr = renderIsolated(c)
+	} else {
+		res, perr, herr = render(c)
+	}
 	if herr != nil {
 		return &vk.Fail{Kind: "decode", Msg: herr.Error()}
 	}
@@ -686,6 +1432,9 @@ func matrixOps(r *vk.Run, b *builder) {
 	for _, op := range binops {
 		for _, l := range pool {
 			for _, rr := range pool {
+				if !pairOK(r, l, rr, true) && l != rr {
+					continue
+				}
 				natural := !l.Odd && !rr.Odd && l.Kind == rr.Kind && opNatural(l.Kind, op)
 				b.add(cell{mkCase("ops", fmt.Sprintf("<%%= %s %s %s %%>", l.spell(), op, rr.spell()), l, rr), !natural, "ops/" + op})
 			}
@@ -716,6 +1465,9 @@ func matrixIndex(r *vk.Run, b *builder) {
 	conts = append(conts, sub("pS", ".L"), sub("pS", ".M"), sub("sval", ".L"), sub("pS", ".Any"), sub("pS", ".P"))
 	for _, c := range conts {
 		for _, i := range pool {
+			if !pairOK(r, c, i, true) && !(c.Kind == "map" && c.Wide) { // the further maps meet every key
+				continue
+			}
 			nt := !indexNatural(c, i)
 			for k, f := range reads {
 				b.add(cell{mkCase("index", fmt.Sprintf(f, c.spell(), i.spell()), c, i), nt, fmt.Sprintf("index/read%d", k)})
@@ -726,7 +1478,9 @@ func matrixIndex(r *vk.Run, b *builder) {
 		}
 	}
 	// the assigned value from the whole pool, for a few natural (container, index) pairs
-	for _, ci := range [][2]string{{"ints", "int"}, {"anys", "int0"}, {"arr", "int"}, {"parr", "int"}, {"msi", "str"}, {"msa", "str"}, {"mis", "int"}, {"maa", "str"}, {"nilmap", "str"}, {"strs", "int"}, {"structs", "int0"}, {"pstructs", "int0"}, {"lit_arr", "int"}, {"lit_hash", "str"}, {"str", "int"}} {
+	for _, ci := range [][2]string{{"ints", "int"}, {"anys", "int0"}, {"arr", "int"}, {"parr", "int"}, {"msi", "str"}, {"msa", "str"}, {"mis", "int"}, {"maa", "str"}, {"nilmap", "str"}, {"strs", "int"}, {"structs", "int0"}, {"pstructs", "int0"}, {"lit_arr", "int"}, {"lit_hash", "str"}, {"str", "int"},
+		{"arrany", "int0"}, {"parrany", "int0"}, {"mstringerelem", "str"}, {"errs", "int0"}, {"stringers", "int0"}, {"mfuncval", "str"}, {"mmap", "str"}, {"slarr", "int0"}, {"arrsl", "int0"}, {"bytes2", "int0"},
+		{"marrkey", "arrkey"}, {"mifacekeys", "nan"}, {"mifacekeys", "arrunh"}, {"marranykey", "arranynan"}, {"funcs", "int0"}, {"ptrs", "int0"}, {"msnested", "str"}, {"ints3", "int0"}, {"mstringerkey", "stringer"}, {"bytes", "int0"}, {"runes", "int0"}} {
 		c, i := P(ci[0]), P(ci[1])
 		for _, v := range pool {
 			// c[i] = c builds a collection that contains itself; emitting it used to overflow the stack
@@ -755,7 +1509,9 @@ func matrixMember(r *vk.Run, b *builder) {
 		}
 		b.add(cell{mkCase("member", fmt.Sprintf("<%% let y = %s.F %%><%%= if (%s.P) { %%>T<%% } %%>", rcv.spell(), rcv.spell()), rcv), !natural, "member/let+if"})
 		for _, a := range pool {
-			b.add(cell{mkCase("member", fmt.Sprintf("<%%= %s.Add(%s) %%>", rcv.spell(), a.spell()), rcv, a), true, "member/.Add(x)"})
+			if pairOK(r, rcv, a, false) {
+				b.add(cell{mkCase("member", fmt.Sprintf("<%%= %s.Add(%s) %%>", rcv.spell(), a.spell()), rcv, a), true, "member/.Add(x)"})
+			}
 		}
 	}
 }
@@ -800,6 +1556,9 @@ func matrixFor(r *vk.Run, b *builder) {
 	}
 	for _, a := range pool {
 		for _, a2 := range pool {
+			if !pairOK(r, a, a2, true) {
+				continue
+			}
 			b.add(cell{mkCase("for", fmt.Sprintf("<%%= for (k, v) in %s { %%><%%= for (j, w) in %s { %%><%%= v %%><%%= w %%><%% } %%><%% } %%>", a.spell(), a2.spell()), a, a2), true, "for/nested"})
 		}
 	}
@@ -855,6 +1614,10 @@ func callCase(matrix, callee string, args []*pv, block bool, deps ...*pv) Case {
 	return mkCase(matrix, body, append(append([]*pv{}, deps...), args...)...)
 }
 
+func callable(p *pv) bool {
+	return p.Kind == "func" || p.Kind == "ufn" || p.Kind == "derived" || p.Kind == "ptr"
+}
+
 func matrixCall(r *vk.Run, b *builder) {
 	callees := append([]*pv{}, pool...)
 	callees = append(callees, sub("pS", ".Add"), sub("pS", ".Var"), sub("pS", ".Fn"), sub("sval", ".Fn"), sub("szero", ".Fn"), sub("pS", ".PHello"), sub("nilpS", ".PHello"), sub("pS", ".Blk"), sub("pS", ".F"), sub("anys", "[0]"))
@@ -866,6 +1629,9 @@ func matrixCall(r *vk.Run, b *builder) {
 			}
 		}
 		for _, a := range pool {
+			if !pairOK(r, cal, a, true) && !callable(cal) {
+				continue
+			}
 			b.add(cell{callCase("call", cal.spell(), []*pv{a}, false, cal), true, "call/1 arg, whole pool"})
 			b.add(cell{callCase("call", cal.spell(), []*pv{P("str"), a}, false, cal), true, "call/2 args, whole pool"})
 			b.add(cell{callCase("call", cal.spell(), []*pv{P("int"), a}, false, cal), true, "call/2 args, whole pool"})
@@ -873,9 +1639,14 @@ func matrixCall(r *vk.Run, b *builder) {
 	}
 	if r.Thorough() { // two arguments, both from the whole pool
 		for _, cal := range callees {
+			if !callable(cal) { // what is not callable fails before its arguments are looked at (1 argument: whole pool, above)
+				continue
+			}
 			for _, a := range pool {
 				for _, a2 := range pool {
-					b.add(cell{callCase("call", cal.spell(), []*pv{a, a2}, false, cal), true, "call/2 args, pool x pool"})
+					if pairOK(r, a, a2, false) {
+						b.add(cell{callCase("call", cal.spell(), []*pv{a, a2}, false, cal), true, "call/2 args, pool x pool"})
+					}
 				}
 			}
 		}
@@ -899,18 +1670,23 @@ func helperNames() []string {
 
 func matrixHelper(r *vk.Run, b *builder) {
 	l2 := argLists(pool, 2)
-	if r.Quick() { // quick: 0-1 arguments from the whole pool; pairs where at least one side is one of every third pool value
+	{ // quick: 0-1 arguments from the whole pool; pairs where at least one side is one of every third value of the original pool
 		third := map[*pv]bool{}
 		for i, p := range pool {
-			if i%3 == 0 || p.Odd && i%2 == 0 {
+			if !p.Wide && (i%3 == 0 || p.Odd && i%2 == 0) {
 				third[p] = true
 			}
 		}
 		var keep [][]*pv
 		for _, l := range l2 {
-			if len(l) < 2 || third[l[0]] || third[l[1]] {
-				keep = append(keep, l)
+			switch {
+			case len(l) < 2:
+			case !pairOK(r, l[0], l[1], false):
+				continue
+			case r.Quick() && !l[0].Wide && !l[1].Wide && !third[l[0]] && !third[l[1]]:
+				continue
 			}
+			keep = append(keep, l)
 		}
 		l2 = keep
 	}
@@ -918,10 +1694,11 @@ func matrixHelper(r *vk.Run, b *builder) {
 	if r.Thorough() { // three arguments from 24 kinds
 		more := eight()
 		for i, p := range pool {
-			if i%4 == 0 && !containsPV(more, p) {
+			if i%4 == 0 && !p.Wide && !containsPV(more, p) {
 				more = append(more, p)
 			}
 		}
+		more = append(more, P("nilmsa"), P("hctxmap"), P("mifacekeys"), P("fvany"), P("strbadutf"), P("deepslice"))
 		l3 = argLists(more, 3)
 	}
 	for _, h := range helperNames() {
@@ -945,6 +1722,9 @@ func matrixHelper(r *vk.Run, b *builder) {
 	// option maps with wrong-typed values
 	for _, a := range pool {
 		for _, a2 := range pool {
+			if !pairOK(r, a, a2, false) {
+				continue
+			}
 			b.add(cell{mkCase("helper", fmt.Sprintf(`<%%= truncate(strlong, {"size": %s, "trail": %s}) %%>`, a.spell(), a2.spell()), P("strlong"), a, a2), true, "helper/truncate options"})
 		}
 		for _, f := range []string{
@@ -990,6 +1770,284 @@ func matrixStmt(r *vk.Run, b *builder) {
 				continue // assignment to a literal is a parse-level matter
 			}
 			b.add(cell{mkCase("stmt", fmt.Sprintf(f, x.spell()), vs...), x.Odd, fmt.Sprintf("stmt/form%d", k)})
+		}
+	}
+}
+
+// ---- further constructs ---------------------------------------------------------------------------------
+
+var members2 = []string{
+	".X", ".y", ".Z", ".Deep", ".Deep.F", ".inner", ".inner.X", ".InnerM()", ".Namer", ".Name()", ".Name", ".Tag", ".f", ".f()", ".m", ".p", ".i", ".s", ".Pub",
+	".F0()", ".F1(1)", ".F1()", ".FNil()", ".FV(1, 2)", ".M(1)", ".M.Twice(1)", ".Any()", ".F0", ".FNil", ".A", ".A[0]", ".A[5]", ".PA", ".PA[0]", ".AA[0][1]", ".AA[0]", ".IA[1]", ".IA[0][0]",
+	".Next", ".Next.Next.V", ".Next.Next.Next.Next", ".Kids", ".Kids[0].V", ".Kids[0].Kids[0].Kids", `.Up["a"].V`, `.Up["zz"].V`, ".String", ".Valid", ".Twice(2)", ".Twice()", ".Int64()", ".Seconds()", ".Value()",
+	".Err", ".St", ".St.String()", ".Any.F", ".Any[0]", ".I", ".S", ".S.F", ".S.Hello()", ".IsNil()", ".Kind()", ".Bool()", ".Index(0)", ".Sign()", ".New()", `.Has("a")`, `.Value("a")`, ".Done()", ".Err()",
+	".Hello()()", ".Fn(1)(2)", ".L[0][0]", ".L[0]()", `.M["k"]["k"]`, ".P.L[0]", ".P.P.L[0]", ".PHello().F", ".Self", ".String().String()", ".T.Unix()", ".T.Year", ".Any.Any", ".Fn.F",
+}
+
+// matrixTarget: assignment to every kind of target: c[i][j] = v, c.Member[i] = v, c.Member[i][j] = v, c.F = v
+func matrixTarget(r *vk.Run, b *builder) {
+	idx := []*pv{P("int0"), P("int"), P("intneg"), P("lit_str"), P("nil"), P("float64"), P("unhash"), P("arrkey")}
+	vals := []*pv{P("int"), P("str"), P("nil"), P("sval"), P("ints"), P("f0")}
+	for _, c := range pool {
+		if c.Spell != "" && c.Kind != "slice" && c.Kind != "map" {
+			continue
+		}
+		for _, i := range idx {
+			for _, j := range idx {
+				for _, v := range vals[:r.Pick(3, 6)] {
+					b.add(cell{mkCase("target", fmt.Sprintf("<%% %[1]s[%[2]s][%[3]s] = %[4]s %%><%%= %[1]s[%[2]s][%[3]s] %%>", c.spell(), i.spell(), j.spell(), v.spell()), c, i, j, v), true, "target/c[i][j] = v"})
+				}
+			}
+		}
+		b.add(cell{mkCase("target", fmt.Sprintf("<%% %[1]s[0][0][0] = 1 %%><%%= %[1]s[0][0][0] %%>", c.spell()), c), true, "target/c[0][0][0] = 1"})
+		if c.Spell != "" {
+			continue
+		}
+		for _, m := range []string{".L", ".M", ".P.L", ".P.M", ".Any", ".A", ".PA", ".IA", ".AA[0]", ".Kids", ".Up", ".Next.Kids", ".s", ".m", ".F", ".Nope", ".Hello()", ".Err", ".Fn"} {
+			for _, i := range idx {
+				for _, v := range vals {
+					b.add(cell{mkCase("target", fmt.Sprintf("<%% %[1]s%[2]s[%[3]s] = %[4]s %%><%%= %[1]s%[2]s[%[3]s] %%>", c.spell(), m, i.spell(), v.spell()), c, i, v), true, "target/c.m[i] = v"})
+				}
+			}
+		}
+		for _, v := range pool {
+			if !pairOK(r, c, v, false) {
+				continue
+			}
+			b.add(cell{mkCase("target", fmt.Sprintf("<%% %[1]s.F = %[2]s %%><%%= %[1]s.F %%>", c.spell(), v.spell()), c, v), true, "target/c.F = v"})
+			b.add(cell{mkCase("target", fmt.Sprintf("<%% let F = 1 %%><%% %[1]s.F = %[2]s %%><%%= F %%>", c.spell(), v.spell()), c, v), true, "target/c.F = v"})
+		}
+	}
+}
+
+// matrixChain: index chains, calls on results, members of results
+func matrixChain(r *vk.Run, b *builder) {
+	idx := []*pv{P("int0"), P("int"), P("lit_str"), P("nil"), P("intneg")}
+	forms := []string{
+		"<%%= %s()() %%>", "<%%= %s()()() %%>", "<%%= %s(1)(2) %%>", "<%%= %s[0]() %%>", `<%%= %s["a"]() %%>`, "<%%= %s[0]()() %%>", "<%%= %s[0][0]() %%>", `<%%= %s["a"]["a"] %%>`,
+		"<%%= %s()[0][0] %%>", "<%%= %s()[0]() %%>", "<%%= %s[0](1, 2) %%>", `<%%= %s["abc"](nil) %%>`, "<%%= %s[0].F %%>", "<%%= %s[0].Hello() %%>", "<%%= %s[0].L[0] %%>", "<%%= %s[0].P.F %%>",
+		"<%%= %s[0][0].F %%>", "<%%= %s[0].Kids[0].V %%>", "<%%= %s[1] %%>", "<%%= %s[1][0] %%>", "<%%= %s[1].F %%>", "<%%= %s[1]() %%>", "<%%= len(%s[0]) %%>", "<%%= for (v) in %s[0] { %%><%%= v %%><%% } %%>",
+		"<%%= fany(%s)[0] %%>", "<%%= fany(%s)[0][0] %%>", "<%%= fany(fany(%s))() %%>", "<%% let y = %s %%><%%= y[0][0] %%><%%= y()() %%>", "<%% let y = %s %%><%%= y.F %%><%%= y.Hello() %%>",
+		"<%% let g = fn(q) { return q } %%><%%= g(%s)() %%>", "<%% let g = fn(q) { return q } %%><%%= g(%s)[0] %%>", "<%% let g = fn(q) { return q } %%><%%= g(g)(%s) %%>", "<%% let g = fn(q) { return q() } %%><%%= g(%s) %%>",
+		"<%% let g = fn(q) { return q[0] } %%><%%= g(%s) %%>", "<%% let g = fn(q) { return fn() { return q } } %%><%%= g(%s)() %%>", "<%% let g = fn(q) { return fn() { return q } } %%><%%= g(%s)()() %%>",
+		"<%%= fn() { return %s }() %%>", "<%%= fn(q) { return q }(%s) %%>", "<%%= fn(q) { return q[0] }(%s) %%>", "<%%= fn(q) { %%><%%= q %%><%% }(%s) %%>",
+	}
+	for _, c := range pool {
+		for k, f := range forms {
+			if c.Spell != "" && strings.Contains(f, ".") {
+				continue
+			}
+			b.add(cell{mkCase("chain", fmt.Sprintf(f, c.spell()), c, P("fany")), true, fmt.Sprintf("chain/form%d", k)})
+		}
+		for _, i := range idx {
+			for _, j := range idx {
+				for _, k := range idx {
+					b.add(cell{mkCase("chain", fmt.Sprintf("<%%= %s[%s][%s][%s] %%>", c.spell(), i.spell(), j.spell(), k.spell()), c, i, j, k), true, "chain/c[i][j][k]"})
+				}
+			}
+		}
+		if c.Spell != "" {
+			continue
+		}
+		for _, m := range members2 {
+			b.add(cell{mkCase("chain", fmt.Sprintf("<%%= %s%s %%>", c.spell(), m), c), true, "chain/member " + m})
+		}
+		for _, a := range six() {
+			for _, f := range []string{"<%%= %s()(%s) %%>", "<%%= %s[0](%s) %%>", `<%%= %s["a"](%s) %%>`, "<%%= %s(%s)() %%>", "<%%= %s(%s)[0] %%>", "<%%= %s(%s).F %%>", "<%%= %s.F0(%s) %%>", "<%%= %s.M(%s) %%>", "<%%= %s.FV(%s, %[2]s) %%>"} {
+				b.add(cell{mkCase("chain", fmt.Sprintf(f, c.spell(), a.spell()), c, a), true, "chain/with argument"})
+			}
+		}
+	}
+}
+
+// matrixOdd: loop variables re-assigned in the body, the iterable re-assigned or written while it is iterated,
+// break / continue / return in odd positions, pool values as hash keys, context keys the engine itself reads
+func matrixOdd(r *vk.Run, b *builder) {
+	forms := []string{
+		`<%%= for (k, v) in %[1]s { %%><%% v = 1 %%><%% k = "s" %%><%%= v %%><%%= k %%><%% } %%>`,
+		`<%%= for (k, v) in %[1]s { %%><%% let v = k %%><%% let k = %[1]s %%><%%= v %%><%% } %%>`,
+		`<%%= for (k, v) in %[1]s { %%><%% %[1]s = 1 %%><%%= v %%><%% } %%><%%= %[1]s %%>`,
+		`<%%= for (k, v) in %[1]s { %%><%% %[1]s[k] = nil %%><%% } %%><%%= %[1]s %%>`,
+		`<%%= for (k, v) in %[1]s { %%><%% %[1]s["new"] = 1 %%><%% %[1]s[0] = 1 %%><%%= v %%><%% } %%>`,
+		`<%%= for (k, v) in %[1]s { %%><%% let k = nil %%><%% let v = nil %%><%% } %%>`,
+		`<%%= for (k, k) in %[1]s { %%><%%= k %%><%% } %%>`,
+		`<%%= for (nil, len) in %[1]s { %%><%%= len(nil) %%><%% } %%>`,
+		`<%%= for (k, v) in %[1]s { let y = continue } %%>`,
+		`<%%= for (k, v) in %[1]s { return break } %%>`,
+		`<%%= for (k, v) in %[1]s { return continue } %%>`,
+		`<%%= for (k, v) in %[1]s { let y = break %%>x<%% } %%>`,
+		`<%%= for (k, v) in %[1]s { if (v) { break } else { continue } } %%>`,
+		`<%%= for (k, v) in %[1]s { [break, v] } %%>`,
+		`<%%= for (k, v) in %[1]s { {"a": continue} } %%>`,
+		`<%%= for (k, v) in %[1]s { fany(break) } %%>`,
+		`<%%= for (k, v) in %[1]s { %%><%%= fany(continue) %%><%% } %%>`,
+		`<%%= for (k, v) in %[1]s { %%><%%= v[continue] %%><%% } %%>`,
+		`<%%= for (k, v) in %[1]s { %%><%%= break + 1 %%><%% } %%>`,
+		`<%%= for (k, v) in %[1]s { %%><%%= "s" + continue %%><%% } %%>`,
+		`<%%= for (k, v) in %[1]s { %%><%%= len(break) %%><%% } %%>`,
+		`<%%= for (k, v) in %[1]s { %%><%%= inspect(break) %%><%%= toJSON(continue) %%><%% } %%>`,
+		`<%%= for (k, v) in %[1]s { %%><%% %[1]s[break] = 1 %%><%% } %%>`,
+		`<%%= for (k, v) in %[1]s { %%><%% %[1]s[k] = continue %%><%% } %%><%%= %[1]s %%>`,
+		`<%%= for (k, v) in %[1]s { %%><%%= !break %%><%%= break == continue %%><%%= if (break) { %%>T<%% } %%><%% } %%>`,
+		`<%%= for (k, v) in %[1]s { %%><%%= for (a, b) in break { %%>x<%% } %%><%% } %%>`,
+		`<%%= for (k, v) in %[1]s { %%><%%= break() %%><%% } %%>`,
+		`<%%= for (k, v) in %[1]s { %%><%%= continue.F %%><%% } %%>`,
+		`<%%= for (k, v) in %[1]s { %%><%%= fblk() { %%>a<%% break %%>b<%% } %%>c<%% } %%>`,
+		`<%%= for (k, v) in %[1]s { %%><%%= fblk() { %%>a<%% return v %%>b<%% } %%>c<%% } %%>`,
+		`<%%= for (k, v) in %[1]s { %%><%% let f = fn() { return v } %%><%%= f() %%><%% } %%>`,
+		`<%%= for (k, v) in %[1]s { %%><%%= for (a, b) in %[1]s { %%><%% break %%><%% } %%><%% continue %%>z<%% } %%>`,
+		`<%%= for (k, v) in %[1]s { %%><%%= if (true) { %%>a<%% break %%><%% } %%>b<%% } %%>`,
+		`<%%= for (k, v) in %[1]s { %%><%%= if (true) { return v } %%>b<%% } %%>tail`,
+		`<%% let f = fn(q) { for (k, v) in q { if (v) { return v } } return 0 } %%><%%= f(%[1]s) %%>`,
+		`<%% let f = fn(q) { for (k, v) in q { %%>x<%% continue %%>y<%% } } %%><%%= f(%[1]s) %%>`,
+		`<%% let f = fn(len) { return len(%[1]s) } %%><%%= f(%[1]s) %%>`,
+		`<%% let f = fn(q, q) { return q } %%><%%= f(1, %[1]s) %%>`,
+		`<%% let f = fn(q) { q = 1 %%><%% return q } %%><%%= f(%[1]s) %%><%%= %[1]s %%>`,
+		`<%%= {%[1]s: 1} %%>`, `<%%= {%[1]s: %[1]s}["%[1]s"] %%>`, `<%% let h = {"a": %[1]s} %%><%% h["b"] = h["a"] %%><%%= h["b"] %%>`,
+		`<%%= if (%[1]s) { return %[1]s } else { %%>e<%% } %%>tail`,
+		`<%%= if (%[1]s == %[1]s && %[1]s != nil || !%[1]s) { %%>T<%% } %%>`,
+		`<%%= if (%[1]s) { %%>a<%% } else if (%[1]s[0]) { %%>b<%% } else if (%[1]s.F) { %%>c<%% } else { %%><%%= %[1]s %%><%% } %%>`,
+		`<%% let contentType = %[1]s %%><%%= partial("p") %%>`,
+		`<%% let contentType = "application/javascript" %%><%%= partial(%[1]s) %%>`,
+		`<%% let partialFeeder = %[1]s %%><%%= partial("p") %%>`,
+		`<%% let nil = %[1]s %%><%%= nil %%><%%= nil == nil %%><%%= unk == nil %%>`,
+		`<%% let yield = %[1]s %%><%%= partial("p", {"layout": "p"}) %%>`,
+		`<%% let TIME_FORMAT = %[1]s %%><%%= ptim %%><%%= [tim] %%>`,
+		`<%% let fblk = %[1]s %%><%%= fblk() { %%>B<%% } %%>`,
+		`<%% let x = %[1]s %%><%% let x = [x, x] %%><%% let x = [x, x] %%><%%= x %%><%%= inspect(x) %%><%%= toJSON(x) %%>`,
+		`<%% let x = [%[1]s] %%><%% x[0] = x %%><%%= x %%>`,
+		`<%% let x = {"a": %[1]s} %%><%% x["a"] = x %%><%%= x %%>`,
+		`<%%= %[1]s %%><%%= raw(inspect(%[1]s)) %%><%%= "" + %[1]s %%><%%= json(%[1]s) %%>`,
+		`<%%= "s" ~= "" + %[1]s %%>`,
+		`<%%= contentFor("c") { %%><%%= %[1]s %%><%% } %%><%%= contentOf("c") %%><%%= contentOf("c", {"%[1]s": 1}) %%>`,
+		`<%% contentFor("c") { %%><%%= for (v) in q { %%><%%= v %%><%% } %%><%% } %%><%%= contentOf("c", {"q": %[1]s}) %%>`,
+	}
+	deps := []*pv{P("fany"), P("fblk"), P("tim"), P("ptim")}
+	for _, x := range pool {
+		for k, f := range forms {
+			if x.Spell != "" && (strings.Contains(f, "%[1]s = ") || strings.Contains(f, "%[1]s[k] = ") || strings.Contains(f, "] = ") || strings.Contains(f, "{%[1]s")) {
+				continue
+			}
+			c := mkCase("odd", fmt.Sprintf(f, x.spell()), append([]*pv{x}, deps...)...)
+			c.Vars = trimVars(c)
+			b.add(cell{c, true, fmt.Sprintf("odd/form%d", k)})
+		}
+	}
+}
+
+// matrixPrefix: the prefix operators "-" and "!" over the whole pool (incl. nil, the unknown identifier, typed
+// nils), spelled in every position an operand can take, applied to calls, absent map entries and nil members,
+// doubled, and nested in infix expressions. (On the current tree "-x" is the error "unknown operator -" for
+// every x; the cells exist so that an implementation of unary minus is met by every operand kind.)
+func matrixPrefix(r *vk.Run, b *builder) {
+	forms := []string{
+		"<%%= -%s %%>", "<%%= !%s %%>", "<%%= - %s %%>", "<%%= ! %s %%>", "<%%= !!%s %%>", "<%%= --%s %%>", "<%%= -(%s) %%>", "<%%= !(%s) %%>", "<%%= -!%s %%>", "<%%= !-%s %%>", "<%%= -(-(%s)) %%>",
+		"<%%= -%s() %%>", "<%%= !%s() %%>", "<%%= -%s(1) %%>", `<%%= -%s["absent"] %%>`, `<%%= !%s["absent"] %%>`, "<%%= -%s[0] %%>", "<%%= -%s[5] %%>", "<%%= -fany(%s) %%>", "<%%= -len(%s) %%>",
+		"<%%= 1 - -%s %%>", "<%%= 1 + -%s %%>", `<%%= "s" + -%s %%>`, "<%%= -%s - 1 %%>", "<%%= -%s + 1 %%>", `<%%= -%s + "s" %%>`, "<%%= -%[1]s == -%[1]s %%>", "<%%= -%[1]s * -%[1]s %%>", "<%%= 2.5 / -%s %%>", "<%%= nil == -%s %%>",
+		"<%%= %[1]s || -%[1]s %%>", "<%%= !%[1]s && -%[1]s %%>", "<%%= -%[1]s || !%[1]s %%>", "<%%= %[1]s ~= -%[1]s %%>", "<%%= 1 < -%s %%>",
+		"<%%= if (-%s) { %%>T<%% } else { %%>F<%% } %%>", "<%%= if (!%s) { %%>T<%% } else { %%>F<%% } %%>", "<%% let y = -%s %%><%%= y %%><%%= -y %%>", "<%% let y = 1 %%><%% y = -%s %%><%%= y %%>",
+		"<%%= for (v) in -%s { %%>x<%% } %%>", "<%%= for (k, v) in %[1]s { %%><%%= -v %%><%%= -k %%><%%= !v %%><%% } %%>", "<%%= fany(-%s) %%>", "<%%= f1(-%s) %%>", "<%%= [-%[1]s, !%[1]s] %%>", `<%%= {"a": -%s}["a"] %%>`,
+		"<%% return -%s %%>", "<%% let f = fn(q) { return -q } %%><%%= f(%s) %%>", "<%% let f = fn(q) { return !q } %%><%%= f(%s) %%>", "<%%= ints[-%s] %%>", "<%% ints[0] = -%s %%><%%= ints %%>", `<%%= truncate("abcdef", {"size": -%s}) %%>`,
+		"<%%= until(-%s) %%>", "<%%= fblk() { %%><%%= -%s %%><%% } %%>",
+	}
+	memberForms := []string{"<%%= -%s.P %%>", "<%%= !%s.P %%>", "<%%= -%s.N %%>", "<%%= -%s.F %%>", "<%%= -%s.Nope %%>", "<%%= -%s.P.P %%>", "<%%= -%s.Add(1) %%>", "<%%= -%s.Hello() %%>", "<%%= -%s.L[0] %%>", `<%%= -%s.M["absent"] %%>`, "<%%= -%s.Any %%>", "<%%= -%s.T %%>", "<%%= 1 - -%s.N %%>", `<%%= "s" + -%s.P %%>`}
+	deps := []*pv{P("fany"), P("f1"), P("ints"), P("fblk")}
+	for _, x := range pool {
+		fs := forms
+		if x.Spell == "" {
+			fs = append(append([]string{}, forms...), memberForms...)
+		}
+		for k, f := range fs {
+			c := mkCase("prefix", fmt.Sprintf(f, x.spell()), append([]*pv{x}, deps...)...)
+			c.Vars = trimVars(c)
+			b.add(cell{c, true, fmt.Sprintf("prefix/form%d", k)})
+		}
+	}
+	// the literal operands the pool does not spell
+	for _, lit := range []string{"nil", "unknownName", "unknownName.F", "unknownName[0]", "unknownName()", "1", "0", "1.5", `"s"`, `""`, "true", "false", "[1]", "[]", `{"a": 1}`, "{}", "fn() { return 1 }", "fn() { return 1 }()", `"a" + "b"`, "(1 + 2)", "(nil)"} {
+		for _, f := range []string{"<%%= -%s %%>", "<%%= - %s %%>", "<%%= !%s %%>", "<%%= !!%s %%>", "<%%= --%s %%>", "<%%= -(%s) %%>", "<%%= 1 - -%s %%>", `<%%= "s" + -%s %%>`, "<%%= -%s + 1 %%>", "<%%= if (-%s) { %%>T<%% } %%>", "<%% let y = -%s %%><%%= y %%>", "<%%= nil == -%s %%>", "<%%= -%[1]s == -%[1]s %%>", "<%%= !-%s %%>", "<%%= -!%s %%>"} {
+			b.add(cell{Case{Matrix: "prefix", Tmpl: vk.Text(fmt.Sprintf(f, lit))}, true, "prefix/literal operand"})
+		}
+	}
+}
+
+// matrixCtx: the statement, loop and chain shapes under plush's other implementation of hctx.Context
+// (helpers/helptest.HelperContext), which plush.Render and Template.Exec accept like any hctx.Context
+func matrixCtx(r *vk.Run, b *builder) {
+	forms := []string{
+		"<%%= %s %%>", "<%% let y = %s %%><%%= y %%>", "<%% let y = 1 %%><%% y = %s %%><%%= y %%>", "<%%= if (%s) { %%>T<%% } else { %%>F<%% } %%>",
+		"<%% let f = fn(q) { return q } %%><%%= f(%s) %%>", "<%%= [%[1]s, %[1]s] %%>", `<%%= {"k": %s}["k"] %%>`, "<%%= for (k, v) in %s { %%><%%= k %%><%%= v %%><%% } %%>",
+		"<%%= for (v) in [%s] { %%><%%= v %%><%% } %%>", "<%%= %s[0] %%>", "<%%= %s[0].F %%>", "<%%= %s[0].Hello() %%>", "<%%= %s() %%>", "<%%= %s().F %%>", "<%%= %s.F %%>", "<%%= %s.Hello() %%>", "<%%= %s.Hello().F %%>",
+		"<%%= %s.L[0] %%>", "<%%= fblk() { %%><%%= %s %%><%% } %%>", "<%%= len(%s) %%>", `<%%= partial("p", {"k": %s}) %%>`, `<%% contentFor("c") { %%>B<%% } %%><%%= contentOf("c", {"k": %s}) %%>`,
+		`<%%= truncate("abcdef", {"size": %s}) %%>`, "<%%= %s + 1 %%>", `<%%= "s" + %s %%>`, "<%%= %[1]s == %[1]s %%>", "<%% %s[0] = 1 %%>ok", "<%%= groupBy(1, %s) %%>", "<%%= htmlEscape(%s) { %%>B<%% } %%>",
+	}
+	for _, x := range pool {
+		if x.Fatal || x.Wide && !r.Thorough() && x.Kind != "func" && x.Kind != "iter" {
+			continue
+		}
+		for k, f := range forms {
+			if x.Spell != "" && (strings.Contains(f, ".") || strings.Contains(f, "] = ")) {
+				continue
+			}
+			c := mkCase("ctx", fmt.Sprintf(f, x.spell()), x, P("fblk"))
+			c.Vars = trimVars(c)
+			c.Ctx = "helptest"
+			b.add(cell{c, true, fmt.Sprintf("ctx/form%d", k)})
+		}
+	}
+}
+
+// sweepExprs: one expression evaluated in one render for a sequence of values of changing kind
+var sweepExprs = []string{
+	"v", "v[0]", `v["a"]`, "v.F", "v.Hello()", "v + 1", `"s" + v`, "v == v", "v == nil", "!v", "len(v)", "inspect(v)", "toJSON(v)", "fany(v)", "v()",
+	"[v, v]", `{"a": v}`, "v.L[0]", "v.Next.V", "v[0][0]", "v ~= v", "v + v", "v < v",
+}
+
+// matrixSweep: for each expression, the pool values for which it evaluates without error on its own are
+// found first (one render each); the expression is then evaluated for all of them in ONE loop, in rotated
+// orders, and - as a sweep can only go on while nothing fails - once per pair (first a, then b).
+func matrixSweep(r *vk.Run, b *builder) {
+	var vals []*pv
+	for _, p := range pool {
+		if p.Spell == "" && p.Mk != nil && !p.Heavy && !p.Fatal {
+			vals = append(vals, p)
+		}
+	}
+	for ei, e := range sweepExprs {
+		var ok []*pv
+		for _, p := range vals {
+			c := mkCase("sweep", fmt.Sprintf("<%%= for (v) in [%s] { %%><%%= %s %%><%% } %%>", p.Name, e), p, P("fany"))
+			res, perr, herr := render(c)
+			if perr == nil && herr == nil && !res.Panicked() && res.Err == nil {
+				ok = append(ok, p)
+			}
+			b.add(cell{c, true, "sweep/single"})
+		}
+		if len(ok) == 0 {
+			continue
+		}
+		step := r.Pick(7, 1)
+		for rot := 0; rot < len(ok); rot += step {
+			seq := append(append([]*pv{}, ok[rot:]...), ok[:rot]...)
+			var names []string
+			for _, p := range seq {
+				names = append(names, p.Name)
+			}
+			body := fmt.Sprintf("<%%= for (v) in [%s] { %%><%%= %s %%><%% } %%>", strings.Join(names, ", "), e)
+			b.add(cell{mkCase("sweep", body, append(seq, P("fany"))...), true, fmt.Sprintf("sweep/rotation of expr %d", ei)})
+		}
+		// value of the other kinds after a good one: the second evaluation fails or not, never panics
+		for i, g := range ok {
+			if i%r.Pick(9, 2) != 0 {
+				continue
+			}
+			for _, p := range vals {
+				if !pairOK(r, g, p, false) {
+					continue
+				}
+				body := fmt.Sprintf("<%%= for (v) in [%s, %s, %s] { %%><%%= %s %%><%% } %%>", g.Name, p.Name, g.Name, e)
+				b.add(cell{mkCase("sweep", body, g, p, P("fany")), true, "sweep/good then any"})
+			}
 		}
 	}
 }
@@ -1045,7 +2103,7 @@ func (g *progGen) cond(d int) string {
 	case 0:
 		return fmt.Sprintf("%s %s %s", g.operand(d), rapid.SampledFrom(binops).Draw(g.t, "op"), g.operand(d))
 	case 1:
-		return "!" + g.simple(d)
+		return rapid.SampledFrom([]string{"!", "!", "-"}).Draw(g.t, "prefix") + g.simple(d)
 	}
 	return g.simple(d)
 }
@@ -1176,7 +2234,7 @@ func (g *progGen) expr(d int) string {
 	case 2, 3:
 		return fmt.Sprintf("%s %s %s", g.operand(d-1), rapid.SampledFrom(binops).Draw(g.t, "op"), g.operand(d-1))
 	case 4:
-		return "!" + g.operand(d-1)
+		return rapid.SampledFrom([]string{"!", "!", "-", "!!", "- ", "--", "!-", "-!"}).Draw(g.t, "prefix") + g.operand(d-1)
 	case 5, 6:
 		return fmt.Sprintf("%s[%s]", g.operand(d-1), g.expr(d-1))
 	case 7:
@@ -1462,6 +2520,12 @@ func TestProp(t *testing.T) {
 	runCells(r, "call: (pool + 10 derived callees) x 0-3 arguments from 6 kinds x block/no block + 1-2 arguments from the whole pool + results used", matrixCall)
 	runCells(r, "helper: every built-in x 0-2 arguments from the whole pool (quick tier: pairs with at least one side in a 45-value subset; +block for 0-1) + 3 arguments from 8 kinds (thorough: 30) + 2 of 8 with block + option maps/composition x pool", matrixHelper)
 	runCells(r, "stmt: pool x 23 statement shapes", matrixStmt)
+	runCells(r, "target: assignment targets c[i][j] = v, c[0][0][0] = 1, c.member[i] = v for 19 members, c.F = v", matrixTarget)
+	runCells(r, "chain: index chains c[i][j][k], calls on results c()() c[0]() g(c)(), 40 shapes + 100 further member shapes x pool", matrixChain)
+	runCells(r, "odd: pool x 60 shapes: loop variables / iterable re-assigned in the body, break / continue / return in odd positions, pool values as hash keys, context keys the engine reads", matrixOdd)
+	runCells(r, "prefix: pool x 67 shapes of the prefix operators - and ! (spaced, doubled, parenthesised, on calls / absent entries / nil members, nested in infix expressions, in if / let / for / return / arguments / literals) + 21 literal operands x 15 shapes", matrixPrefix)
+	runCells(r, "ctx: pool x 29 statement, loop, call and helper shapes executed with a helptest.HelperContext as the context", matrixCtx)
+	runCells(r, "sweep: 23 expressions evaluated in one loop over every pool value they accept, in rotated orders, and after a good value over every other value", matrixSweep)
 
 	r.Rapid("random", r.Pick(20000, 150000), func(t *rapid.T) *vk.Fail {
 		c := genProgram(t)
@@ -1480,6 +2544,7 @@ func TestProp(t *testing.T) {
 // report prints one line per panic root cause and raises one VIOLATION (with the minimal witness) per
 // root cause that is not listed as known-open.
 func report(r *vk.Run) {
+	isoShutdown()
 	aggMu.Lock()
 	defer aggMu.Unlock()
 	var names []string
@@ -1556,7 +2621,7 @@ func (c *cappedIter) Next() interface{} {
 func fuzzData() map[string]interface{} {
 	data := map[string]interface{}{}
 	for _, p := range pool {
-		if p.Mk != nil {
+		if p.Mk != nil && !p.Heavy && !p.Fatal {
 			data[p.Name] = p.Mk()
 		}
 	}
